@@ -8,7 +8,7 @@ from harness import c05
 
 ID = "C13"
 PROPS = "props/C13.v"
-NEEDS = ["operator_precedence"]
+NEEDS = ["operator_precedence", "Adder_apply", "Subtractor_apply", "Multiplier_apply", "Divider_apply", "Maximizer_apply", "Minimizer_apply", "Consumption_apply", "Production_apply", "Clipper_apply", "ConstantValue_apply"]
 
 
 def boundary_ho():
@@ -38,12 +38,14 @@ def boundary_ho():
 
 
 class StrStream(c05.StrStream):
+    p_unaligned = 0.3
     n_quick = 700
     n_thorough = 15000
     p_missing = (0.15, 0.3, 0.5)
 
 
 class HoStream(c05.HoStream):
+    p_unaligned = 0.3
     n_quick = 700
     n_thorough = 15000
     p_missing = (0.15, 0.3, 0.5)
@@ -106,7 +108,7 @@ TRUSTED = c05.TRUSTED
 META = {
     "technique": "Coq proof (NaN propagation for every step kind and operand position and every rounding function; an invariant of the "
                  "post-fix executor: a NaN once fetched stays on the stack; strictness and stack discipline of compiled programs by structural "
-                 "induction) + T-tie translation of _operator_precedence + differential correspondence of the formula engine vs the model "
+                 "induction) + T-tie translation of _operator_precedence and of the step classes' apply bodies + differential correspondence of the formula engine vs the model "
                  "evaluated inside Coq, with missing masks (None/NaN/+-inf), both nones_are_zeros settings per stream and per build, zero divisors",
     "level_text": "Machine-checked theorems, closed under the global context, on the Gallina model of MetricFetcher.apply, the step classes, "
                   "FormulaEvaluator.apply and the builders: NaN in => NaN out for + - * / max min (either operand), consumption, production, "
